@@ -1,6 +1,7 @@
 from harness import evprops, hcommon, hprop_run, mixed
 
 PROP = "C15"
+EXTRA_PROPS = ("C15c",)    # causal order of the indications as an automaton over the event log, every history, both handlers
 FAULT_TABLES = False
 DEFAULT_ONLY = False
 
@@ -28,7 +29,7 @@ def run(tier, seed):
     if PROP == "C14":
         rc_extra = evprops.set_handler_refuses()
     hc = hcommon.HandlerCheck(PROP, tier, seed)
-    hc.gate()
+    hc.gate(EXTRA_PROPS)
     hc.run_corpus(lambda kind: evprops.oracle_c15)
     for text in rc_extra:
         hc.v.violation("oracle: C14 " + text, {"api": "DefaultFaultHandlerBase.set_handler"})
